@@ -17,6 +17,7 @@ RULE = ("valid abstract messages of every kind, each constrained field replaced 
         "distinct = hash(XML text)")
 ASSUMPTIONS = ["an absent number value is tolerated (drivers publish unset numbers); min/max/step/format are unconstrained",
                "the top-level oneLight kind the library registers is treated as a kind with a State value"]
+QUICK_SHARDS = 2
 REQUIRED_EVENTS = ["hostile_inputs", "rejected", "parsed_and_validated"]
 
 PYTHONISH = ["None", "indi.message.const", "__main__", "State", "__doc__", "__module__", "builtins", "const",
